@@ -150,6 +150,15 @@ and ref_op_raw c : int * obj * (unit -> bool option) option =
       let g1 = gens_hint x and g2 = gens_hint y in
       if not (has_point g1) || not (has_point g2) then id, upd false_sys, none
       else id, upd (sys_of_gens n (te_gens g1 g2)), none
+  | "positive_time_elapse_assign" ->
+      let y = get (nexti c) in
+      let r = pos_time_elapse (nat n) x.s y.s in
+      if x.topo = "C" then
+        (match nonempty_sys (nat (n + 1)) r with
+         | Some true -> id, upd (relax r), none
+         | Some false -> id, upd false_sys, none
+         | None -> raise (Skip "undecided emptiness"))
+      else id, upd r, none
   | "fold_space_dimensions" ->
       let k = nexti c in let vs = List.init k (fun _ -> nexti c) in let dest = nexti c in
       if dest >= n || List.exists (fun v -> v >= n || v = dest) vs then raise (Skip "ill-formed fold");
